@@ -71,6 +71,24 @@ def solve_one(ob, timeout_ms=10000, use_cvc5=True, recheck_cvc5=False):
             c = run_cvc5(smt2_of(ob["pc"], ob["goal"]), max(5, timeout_ms / 1000))
             if c in ("unsat", "sat"):
                 status, backend = c, "cvc5"
+        if status == "unknown" and timeout_ms > FIRST_TRY_MS:
+            # second, long attempt (thorough tier): lambda-free hypotheses first, then everything
+            if solve_without_lambdas(ob["pc"], ob["goal"], timeout_ms=timeout_ms) == "unsat":
+                status, backend = "unsat", "z3(hypotheses with lambda terms dropped)"
+            else:
+                s2 = z3.Solver()
+                s2.set("timeout", timeout_ms)
+                s2.add(*ob["pc"])
+                s2.add(z3.Not(ob["goal"]))
+                r2 = s2.check()
+                if r2 == z3.unsat:
+                    status, backend = "unsat", "z3"
+                elif r2 == z3.sat:
+                    status, backend = "sat", "z3"
+                    try:
+                        model = model_to_dict(s2.model())
+                    except Exception:
+                        model = {}
         if status == "unknown":
             sm = small_model_search(ob["pc"], ob["goal"], timeout_ms=min(timeout_ms, FIRST_TRY_MS))
             if sm is not None:
